@@ -132,6 +132,15 @@ def _netmask(netmask: str, afi: AFI) -> int:
     return int(netmask)
 
 
+def _offset(offset: str, netmask: int) -> int:
+    """The offset of an IPv6 flow prefix: the bits to skip, fewer than the prefix length (RFC 8956 3.1)."""
+    if not offset.isdigit() or (int(offset) >= netmask and int(offset) != 0):
+        raise ValueError(
+            f"'{offset}' is not a valid offset for a /{netmask} prefix\n  Must be lower than the prefix length"
+        )
+    return int(offset)
+
+
 def source(tokeniser: 'Tokeniser') -> Generator[Flow4Source | Flow6Source, None, None]:
     """Update source to handle both IPv4 and IPv6 flows."""
     data: str = tokeniser()
@@ -150,7 +159,8 @@ def source(tokeniser: 'Tokeniser') -> Generator[Flow4Source | Flow6Source, None,
     elif data.count(':') >= IPv6.COLON_MIN and data.count('/') == DOUBLE_SLASH:
         offset: str
         ip, netmask, offset = data.split('/')
-        yield Flow6Source.make_prefix6(IP.pton(ip), _netmask(netmask, AFI.ipv6), int(offset))
+        length: int = _netmask(netmask, AFI.ipv6)
+        yield Flow6Source.make_prefix6(IP.pton(ip), length, _offset(offset, length))
     else:
         raise ValueError(
             f"'{data}' is not a valid flow source\n  Must be an IPv4 or IPv6 prefix (10.0.0.0/24, ::1/128/0)"
@@ -175,7 +185,8 @@ def destination(tokeniser: 'Tokeniser') -> Generator[Flow4Destination | Flow6Des
     elif data.count(':') >= IPv6.COLON_MIN and data.count('/') == DOUBLE_SLASH:
         offset: str
         ip, netmask, offset = data.split('/')
-        yield Flow6Destination.make_prefix6(IP.pton(ip), _netmask(netmask, AFI.ipv6), int(offset))
+        length: int = _netmask(netmask, AFI.ipv6)
+        yield Flow6Destination.make_prefix6(IP.pton(ip), length, _offset(offset, length))
     else:
         raise ValueError(
             f"'{data}' is not a valid flow destination\n  Must be an IPv4 or IPv6 prefix (10.0.0.0/24, ::1/128/0)"
